@@ -184,6 +184,7 @@ REACH_PROBES = [
     "pin_changed_between_runs", "unpinned_only", "pin_and_unpinned_same_pkg", "own_package_pin_differs",
     "own_package_pin_same", "own_package_unpinned", "external_upgrade_of_own", "external_removal_of_own",
     "allow_false_with_requirements", "allow_false_own_package_pin_differs", "allow_toggled",
+    "allow_changed_during_run",
     "unsupported_specifier_line", "nonpep440_pin",
     "malformed_line", "comment_hides_higher_pin", "equal_versions_different_spelling",
     "numeric_vs_lexical_order", "prerelease_or_post_pin", "unpinned_installed_from_index",
@@ -1204,6 +1205,9 @@ class PkgSim:
         rec["table_after"] = {p: list(v) for p, v in sorted(self.table.items())}
         rec["t_end"] = self.world.vts()
         rec["done"] = True
+        # the setting as it is when the run ends: a reload that was started meanwhile may have re-read the
+        # configuration while this run was suspended (no second run need have begun for that)
+        rec["allow_end"] = bool(entry.data.get(CONF_ALLOW, False))
         self.record_last = dict(rec["record_after"])
         self.active.remove(rec)
         if not self.active:
@@ -1891,7 +1895,13 @@ def judge_run(rec: dict, ref: dict, universe: list[str], tainted: set, probe, op
             out.append({"class": "C20.unrequested_install", "sig": {},
                         "detail": f"{where}: installer called with {req!r}, which no requirement line asks for",
                         "t": t})
-    if allow and not rec["exc"] and exclusive:
+    # "must be installed / updated" is only demanded of a run for which the setting was on from its beginning to its
+    # end (it reads the setting after its first suspension; found with VERIF_SEED=11: yaml switched off, a direct
+    # call and a reload started together, the reload's import flow changed the entry while the call was suspended)
+    allow_stable = rec.get("allow_end", rec["allow"]) == rec["allow"]
+    if not allow_stable:
+        probe("allow_changed_during_run")
+    if allow and allow_stable and not rec["exc"] and exclusive:
         for name in sorted(sel):
             if name in ref["open"] or name in tainted:
                 continue
